@@ -119,6 +119,69 @@ Proof.
   eexists. exact I1.
 Qed.
 
+
+(* --- DYNAMIC_VSPRINTF and the formatted methods putstrf / addstrf (ops TPutf, HPutf, LPutf, SAddf, APutf of the step functions: all the
+       theorems above quantify over every op and therefore cover them; the loop on its own and the instances are stated for reference) --- *)
+(* the formatting loop (malloc 1024, 2048, ... with a free per round, as the code does it): legal from any ledger, and afterwards the only
+   additional owned block is the buffer it returns *)
+Theorem C15_vsprintf_valid : forall fuel len size al k bs l, Inv bs l ->
+  let r := vs_loop fuel len size al k (nxt l) in
+  safe l (fst (fst (fst r))) /\ Inv (olist (snd (fst (fst r))) ++ bs) (run l (fst (fst (fst r)))).
+Proof. exact vsprintf_valid_thm. Qed.
+(* a failed formatting (any round) leaves exactly the blocks owned before: no earlier, smaller buffer survives *)
+Theorem C15_vsprintf_failed_leaves_nothing : forall fuel len size al k bs l, Inv bs l ->
+  let r := vs_loop fuel len size al k (nxt l) in snd (fst (fst r)) = None ->
+  safe l (fst (fst (fst r))) /\ forall b, own (run l (fst (fst (fst r)))) b = own l b.
+Proof. exact vsprintf_failed_leaves_nothing_thm. Qed.
+Theorem C15_vsprintf_ok : forall fuel len size al k n t, snd (fst (fst (vs_loop fuel len size al k n))) = Some t -> vs_loop fuel len size al k n = vs_loop fuel len size allok k n.
+Proof. exact vs_loop_ok. Qed.
+Theorem C15_tree_putstrf_atomic : forall Sz g key ns len k al, out (tree_step Sz g (TPutf key ns len) k al) = Failed ->
+  st' (tree_step Sz g (TPutf key ns len) k al) = g /\ mutated (tree_step Sz g (TPutf key ns len) k al) = false.
+Proof. exact (fun Sz g key ns len k al => tree_step_atomic Sz g (TPutf key ns len) k al). Qed.
+Theorem C15_hashtbl_putstrf_atomic : forall Sz g key ns len k al, out (hash_step Sz g (HPutf key ns len) k al) = Failed ->
+  st' (hash_step Sz g (HPutf key ns len) k al) = g /\ mutated (hash_step Sz g (HPutf key ns len) k al) = false.
+Proof. exact (fun Sz g key ns len k al => hash_step_atomic Sz g (HPutf key ns len) k al). Qed.
+Theorem C15_listtbl_putstrf_atomic : forall Sz g u t f key ns len k al, out (ltbl_step Sz g (LPutf u t f key ns len) k al) = Failed ->
+  st' (ltbl_step Sz g (LPutf u t f key ns len) k al) = g /\ mutated (ltbl_step Sz g (LPutf u t f key ns len) k al) = false.
+Proof. exact (fun Sz g u t f key ns len k al => ltbl_step_atomic Sz g (LPutf u t f key ns len) k al). Qed.
+Theorem C15_grow_addstrf_atomic : forall Sz g pos len k al, out (list_step Sz g (SAddf pos len) k al) = Failed ->
+  st' (list_step Sz g (SAddf pos len) k al) = g /\ mutated (list_step Sz g (SAddf pos len) k al) = false.
+Proof. exact (fun Sz g pos len k al => list_step_atomic Sz g (SAddf pos len) k al). Qed.
+Theorem C15_hasharr_putstrf_atomic : forall g len k al, out (harr_step g (APutf len) k al) = Failed ->
+  st' (harr_step g (APutf len) k al) = g /\ mutated (harr_step g (APutf len) k al) = false.
+Proof. exact (fun g len k al => harr_step_atomic g (APutf len) k al). Qed.
+Theorem C15_tree_putstrf_failed_owns_same : forall Sz g key ns len al l, Inv (gblocks g) l -> out (tree_step Sz g (TPutf key ns len) (nxt l) al) = Failed ->
+  safe l (evs (tree_step Sz g (TPutf key ns len) (nxt l) al)) /\ forall b, own (run l (evs (tree_step Sz g (TPutf key ns len) (nxt l) al))) b = own l b.
+Proof. exact (fun Sz g key ns len al l => tree_failed_owns_same_thm Sz g (TPutf key ns len) al l). Qed.
+Theorem C15_hashtbl_putstrf_failed_owns_same : forall Sz g key ns len al l, Inv (gblocks g) l -> out (hash_step Sz g (HPutf key ns len) (nxt l) al) = Failed ->
+  safe l (evs (hash_step Sz g (HPutf key ns len) (nxt l) al)) /\ forall b, own (run l (evs (hash_step Sz g (HPutf key ns len) (nxt l) al))) b = own l b.
+Proof. exact (fun Sz g key ns len al l => hashtbl_failed_owns_same_thm Sz g (HPutf key ns len) al l). Qed.
+Theorem C15_listtbl_putstrf_failed_owns_same : forall Sz g u t f key ns len al l, Inv (gblocks g) l -> out (ltbl_step Sz g (LPutf u t f key ns len) (nxt l) al) = Failed ->
+  safe l (evs (ltbl_step Sz g (LPutf u t f key ns len) (nxt l) al)) /\ forall b, own (run l (evs (ltbl_step Sz g (LPutf u t f key ns len) (nxt l) al))) b = own l b.
+Proof. exact (fun Sz g u t f key ns len al l => listtbl_failed_owns_same_thm Sz g (LPutf u t f key ns len) al l). Qed.
+Theorem C15_grow_addstrf_failed_owns_same : forall Sz g pos len al l, Inv (gblocks g) l -> out (list_step Sz g (SAddf pos len) (nxt l) al) = Failed ->
+  safe l (evs (list_step Sz g (SAddf pos len) (nxt l) al)) /\ forall b, own (run l (evs (list_step Sz g (SAddf pos len) (nxt l) al))) b = own l b.
+Proof. exact (fun Sz g pos len al l => list_failed_owns_same_thm Sz g (SAddf pos len) al l). Qed.
+Theorem C15_hasharr_putstrf_failed_owns_same : forall g len al l, Inv (gblocks g) l -> out (harr_step g (APutf len) (nxt l) al) = Failed ->
+  safe l (evs (harr_step g (APutf len) (nxt l) al)) /\ forall b, own (run l (evs (harr_step g (APutf len) (nxt l) al))) b = own l b.
+Proof. exact (fun g len al l => hasharr_failed_owns_same_thm g (APutf len) al l). Qed.
+(* a text of 1024 characters needs a second round; the second request fails: the first buffer has been released, nothing else happened *)
+Example C15_ex_putstrf_growth_fails :
+  let r := hash_step sz64 (mkG [2; 1] []) (HPutf 7 4 1024) 3 (fail_at 1) in
+  evs r = [Alloc 3 TTmp 1024; Free 3; AllocFail TTmp 2048] /\ out r = Failed /\ st' r = mkG [2; 1] [].
+Proof. vm_compute. repeat split. Qed.
+Example C15_ex_putstrf_put_fails_after_formatting :
+  let r := hash_step sz64 (mkG [2; 1] []) (HPutf 7 4 1023) 3 (fail_at 2) in
+  evs r = [Alloc 3 TTmp 1024; Alloc 4 TName 4; Copy 4 SCaller; AllocFail TData 1024; Free 4; Free 3] /\ out r = Failed /\ st' r = mkG [2; 1] [].
+Proof. vm_compute. repeat split. Qed.
+Example C15_ex_putstrf_2500 :
+  let r := tree_step sz64 (mkG [1] []) (TPutf 7 3 2500) 2 allok in
+  evs r = [Alloc 2 TTmp 1024; Free 2; Alloc 3 TTmp 2048; Free 3; Alloc 4 TTmp 4096; Alloc 5 TNode 72; Alloc 6 TName 3; Copy 6 SCaller; Alloc 7 TData 2501; Copy 7 (SBlk 4); Free 4] /\ out r = Done.
+Proof. vm_compute. repeat split. Qed.
+(* what `s = realloc(s, size)` without a free would leave behind is visible in the ledger: block 3 is still owned *)
+Example C15_ex_lost_buffer_is_a_leak : own (run (run ledger0 [Alloc 1 THandle 152; Alloc 2 TSlots 8]) [Alloc 3 TTmp 1024; AllocFail TTmp 2048]) 3 = true.
+Proof. reflexivity. Qed.
+
 Print Assumptions C15_tree_atomic. Print Assumptions C15_hashtbl_atomic. Print Assumptions C15_listtbl_atomic. Print Assumptions C15_list_atomic.
 Print Assumptions C15_hasharr_atomic. Print Assumptions C15_vector_atomic. Print Assumptions C15_ctor_atomic. Print Assumptions C15_qhashtbl_ctor_atomic.
 Print Assumptions C15_wrapper_ctor_atomic. Print Assumptions C15_qhasharr_ctor_atomic. Print Assumptions C15_qvector_ctor_atomic.
@@ -129,3 +192,7 @@ Print Assumptions C15_list_failed_owns_same. Print Assumptions C15_hasharr_faile
 Print Assumptions C15_ctor_failed_leaves_nothing. Print Assumptions C15_qvector_failed_leaves_nothing. Print Assumptions C15_qhashtbl_failed_leaves_nothing.
 Print Assumptions C15_wrapper_failed_leaves_nothing.
 Print Assumptions C15_tree_ok. Print Assumptions C15_hashtbl_ok. Print Assumptions C15_listtbl_ok. Print Assumptions C15_list_ok. Print Assumptions C15_hasharr_ok. Print Assumptions C15_vector_ok.
+Print Assumptions C15_vsprintf_valid. Print Assumptions C15_vsprintf_failed_leaves_nothing. Print Assumptions C15_vsprintf_ok.
+Print Assumptions C15_tree_putstrf_atomic. Print Assumptions C15_hashtbl_putstrf_atomic. Print Assumptions C15_listtbl_putstrf_atomic. Print Assumptions C15_grow_addstrf_atomic.
+Print Assumptions C15_hasharr_putstrf_atomic. Print Assumptions C15_tree_putstrf_failed_owns_same. Print Assumptions C15_hashtbl_putstrf_failed_owns_same.
+Print Assumptions C15_listtbl_putstrf_failed_owns_same. Print Assumptions C15_grow_addstrf_failed_owns_same. Print Assumptions C15_hasharr_putstrf_failed_owns_same.
